@@ -84,6 +84,13 @@ def run(tier, seed, replay=None):
             else:
                 cases.append(gen_nested_big(rng) if k == 'nested_big' else gp.gen_case(rng, k, idx=seen.get(k, 0)))
             seen[k] = seen.get(k, 0) + 1
+        # appended from a generator of their own (the stream above is unchanged): headers that
+        # differ only in the mutability of a reference -- independent families, and an overlapping
+        # pair of `&mut T` blocks next to a `&T` block is rejected (round 10, seeds C11j, C04j)
+        import random as _r
+        rng2 = _r.Random(seed + 10)
+        cases += [gp.gen_case(rng2, 'refmut', idx=i) for i in range(8 if tier == 'quick' else 48)]
+        cases += [gp.gen_case(rng2, 'refmut_overlap', idx=i) for i in range(6 if tier == 'quick' else 18)]
         reqs = ['groups\t' + c.invocation().replace('\n', ' ') for c in cases]
     resp = cm.run_hook(reqs, exe_hook)
     stats = dict(accepted=0, rejected=0, unsupported=0, families=0, members=0, keys=0, nested_members=0, independence_checked=0)
